@@ -500,7 +500,7 @@ def main(tier, seed, only=None):
         for li, i_np, v in ([(3, 2, 0), (6, 0, 1)] if tier == "quick" else [(3, 2, 0), (6, 0, 1), (2, 1, 0), (4, 2, 2), (5, 1, 3)]):
             rep.merge_stats(explore(h08e(li, i_np, v), f"H08e:L{li}:np{i_np}:v{v}", workers=1, timeout_ms=20000, budget_s=300), "H08e")
     if not only:
-        for cname in (("ortho", "pyth") if tier == "quick" else ("ortho", "pyth", "rot", "needle")):
+        for cname in (("pyth",) if tier == "quick" else ("ortho", "pyth", "rot", "needle")):
             rep.merge_stats(explore(h08a(cname), f"H08a:{cname}", timeout_ms=20000, budget_s=900, logic="lira"), "H08a")
         rep.merge_stats(explore(h08c, "H08c", workers=4, timeout_ms=20000, budget_s=300), "H08c")
         rep.require_reached("H08b", "H08d", "H08a:None", "H08a:match", "H08c")
